@@ -7,6 +7,7 @@
 //! module is then listed with status "failed" and no .v file is written for it.
 mod expand;
 mod pins;
+mod zero;
 mod expr;
 mod tables;
 mod types;
@@ -55,14 +56,14 @@ pub const MODULES: &[ModuleSpec] = &[
     skip: &[
       // Rc/Arc::new_uninit + write_zeroes: hand-modelled (Model/ZeroGuard.v)
       "zeroed_arc", "zeroed_arc_slice", "zeroed_rc", "zeroed_rc_slice",
-      // byte copies / trait-dispatched BoxBytes conversions: hand-modelled (Model/Alloc.v)
-      "box_bytes_of", "from_box_bytes", "try_from_box_bytes",
     ],
     imports: &["Internal", "Root"],
     theories: &[],
   },
   // the default methods of `unsafe trait TransparentWrapper<Inner: ?Sized>`
   ModuleSpec { name: "Transparent", file: "src/transparent.rs", skip: &[], imports: &[], theories: &[] },
+  // write_zeroes / fill_zeroes: statements of Model/DropLang.v (zero.rs), not the outcome monad
+  ModuleSpec { name: "Zero", file: "src/lib.rs", skip: &[], imports: &[], theories: &["Model.DropLang"] },
 ];
 
 #[derive(Clone, Debug)]
@@ -187,14 +188,18 @@ fn sig_of(module: &str, f: &syn::ItemFn) -> Result<FnSig, String> {
     match gp {
       syn::GenericParam::Type(tp) => {
         let mut is_cty = false;
+        let mut maybe_unsized = false;
         for b in &tp.bounds {
           if let syn::TypeParamBound::Trait(tb) = b {
             if tb.path.segments.last().map(|s| s.ident == "CheckedBitPattern").unwrap_or(false) {
               is_cty = true;
             }
+            if matches!(tb.modifier, syn::TraitBoundModifier::Maybe(_)) {
+              maybe_unsized = true;
+            }
           }
         }
-        generics.push(Generic { name: tp.ident.to_string(), is_cty, maybe_unsized: false });
+        generics.push(Generic { name: tp.ident.to_string(), is_cty, maybe_unsized });
       }
       syn::GenericParam::Lifetime(_) => {}
       syn::GenericParam::Const(_) => return Err("const generic".into()),
@@ -262,6 +267,7 @@ fn main() {
     match syn::parse_file(&src) {
       Ok(file) => {
         for (f, _) in collect_fns(&file) {
+          if ms.name == "Zero" { break; }
           if ms.skip.contains(&f.sig.ident.to_string().as_str()) {
             continue;
           }
@@ -280,6 +286,12 @@ fn main() {
     let ms = &MODULES[*i];
     let mut items: Vec<ItemOut> = vec![];
     let mut module_error: Option<String> = None;
+    if let (Some(file), "Zero") = (file, ms.name) {
+      items = zero::translate(file);
+      module_error = items.iter().find(|it| it.status.starts_with("failed")).map(|it| format!("fn {}: {}", it.name, it.status));
+      results.push((*i, items, module_error));
+      continue;
+    }
     if let Some(file) = file {
       // Must: associated consts of `impl Cast<A, B>`
       if ms.name == "Must" {
@@ -461,7 +473,9 @@ fn emit_module(ms: &ModuleSpec, items: &[ItemOut]) -> String {
   let mut s = String::new();
   let _ = writeln!(s, "(* GENERATED by bm2coq from {} — do not edit.  Regenerated on every check. *)", ms.file);
   s.push_str("From Coq Require Import NArith List Bool String.\n");
-  s.push_str("From BM Require Import Base.Outcome Base.Prims Base.Own.\n");
+  if ms.name != "Zero" {
+    s.push_str("From BM Require Import Base.Outcome Base.Prims Base.Own.\n");
+  }
   for th in ms.theories {
     let _ = writeln!(s, "From BM Require Import {}.", th);
   }
